@@ -74,11 +74,14 @@ def run(ctx, spec):
             if not w:
                 continue
             rc, impl, _ = C.run_bin(C.CORR if w.get("bin", "corr") == "corr" else C.E2E, [w["component"]], w["ops"])
-            still = any(re.search(k["match"]["impl_regex"], l) for l in impl)
+            if "expect" in w:
+                still = list(impl) == list(w["expect"])
+            else:
+                still = any(re.search(k["match"]["impl_regex"], l) for l in impl)
             if still:
                 ctx.known_hits.append("%s: %s" % (k["key"], k["what"]))
             else:
-                ctx.notes.append("known finding %s no longer reproduces (witness passes)" % k["key"])
+                ctx.notes.append("known finding %s no longer reproduces (witness gives %s)" % (k["key"], impl))
 
     found_input = False
     reported_keys = set()
